@@ -223,10 +223,25 @@ def sc_interleaved_sets(c, S):
     return m, [("le", e1 - 1, zs1), ("le", e2 - 2, zs2)], None
 
 
+def sc_set_then_box(c, S):
+    """the parametrised set is built FIRST, a plain (larger) box afterwards: nothing of the first set may leak into the second"""
+    m, x, w, z = _new(c)
+    zs1 = S(c, z)
+    zs2 = [z <= 3, z >= -3]
+    e1 = x @ z + w
+    e2 = x[0] * z[0] - x[1] * z[1] - w
+    k1 = (e1 <= 1).forall(*zs1)
+    k2 = (e2 <= 2).forall(*zs2)
+    m.min(x.sum() + w)
+    m.st(k1, k2)
+    return m, [("le", e1 - 1, zs1), ("le", e2 - 2, zs2)], None
+
+
 SCENARIOS = {
     "le": sc_le, "ge": sc_ge, "two-rows": sc_two_rows, "eq": sc_eq, "default-set": sc_default_set,
     "maxmin-own-set": sc_maxmin_own_set, "ldr-full": lambda c, S: sc_ldr(c, S, "full"), "ldr-diag": lambda c, S: sc_ldr(c, S, "diag"),
     "ldr-one": lambda c, S: sc_ldr(c, S, "one"), "piecewise": sc_piecewise, "interleaved-sets": sc_interleaved_sets,
+    "set-then-box": sc_set_then_box,
 }
 
 
@@ -304,8 +319,8 @@ TOO_HEAVY = [
     "piecewise/square",
     "two-rows/square"
 ]
-TIMES = {"le/square": 122.0, "ge/budget": 14.6, "ge/square": 121.5, "two-rows/square": 121.6, "eq/square": 14.2, "default-set/budget": 65.2, "default-set/box-ball": 136.7, "default-set/square": 243.2, "default-set/list-and-args": 14.2, "maxmin-own-set/budget": 14.7, "maxmin-own-set/square": 121.9, "maxmin-own-set/list-and-args": 14.4, "ldr-full/box": 5.2, "ldr-full/budget": 138.6, "ldr-full/ball": 5.8, "ldr-full/shifted-ball": 121.5, "ldr-full/ellipsoid": 122.1, "ldr-full/box-ball": 139.2, "ldr-full/square": 366.5, "ldr-diag/budget": 102.3, "ldr-diag/ellipsoid": 18.9, "ldr-diag/square": 364.2, "ldr-one/budget": 135.4, "ldr-one/ellipsoid": 121.7, "ldr-one/box-ball": 14.2, "ldr-one/square": 244.3, "piecewise/budget": 40.6, "piecewise/box-ball": 172.2, "piecewise/square": 245.4, "interleaved-sets/budget": 24.3, "interleaved-sets/box-ball": 121.7, "interleaved-sets/square": 121.4, "le/exp": 120.4}
-QUICK_SETS = ["box", "polytope", "ball", "ellipsoid", "box-ball", "budget"]
+TIMES = {"set-then-box/budget": 90.0, "le/square": 122.0, "ge/budget": 14.6, "ge/square": 121.5, "two-rows/square": 121.6, "eq/square": 14.2, "default-set/budget": 65.2, "default-set/box-ball": 136.7, "default-set/square": 243.2, "default-set/list-and-args": 14.2, "maxmin-own-set/budget": 14.7, "maxmin-own-set/square": 121.9, "maxmin-own-set/list-and-args": 14.4, "ldr-full/box": 5.2, "ldr-full/budget": 138.6, "ldr-full/ball": 5.8, "ldr-full/shifted-ball": 121.5, "ldr-full/ellipsoid": 122.1, "ldr-full/box-ball": 139.2, "ldr-full/square": 366.5, "ldr-diag/budget": 102.3, "ldr-diag/ellipsoid": 18.9, "ldr-diag/square": 364.2, "ldr-one/budget": 135.4, "ldr-one/ellipsoid": 121.7, "ldr-one/box-ball": 14.2, "ldr-one/square": 244.3, "piecewise/budget": 40.6, "piecewise/box-ball": 172.2, "piecewise/square": 245.4, "interleaved-sets/budget": 24.3, "interleaved-sets/box-ball": 121.7, "interleaved-sets/square": 121.4, "le/exp": 120.4}
+QUICK_SETS = ["box", "polytope", "ball", "ellipsoid", "box-ball", "budget", "abs"]
 
 
 def jobs(tier):
